@@ -387,7 +387,10 @@ class Synth:
             x, y = cx - 14.4, cy
             sub_xml, _ = self.nested_fragment(x, y, depth + 1)
             nodes.append(({"id": ph, "p": f"{x:.2f} {y:.2f}", "NodeType": rng.choice(["Fragment", "Nickname"])}, sub_xml))
-            bonds.append({"id": self.nid(), "B": ids[0], "E": ph})
+            if rng.chance(1, 12):   # the place-holder bonded to itself only: nothing to join to
+                bonds.append({"id": self.nid(), "B": ph, "E": ph})
+            else:
+                bonds.append({"id": self.nid(), "B": ids[0], "E": ph})
             if rng.chance(1, 10):   # a place-holder with two bonds is not a valid attachment
                 bonds.append({"id": self.nid(), "B": ids[1], "E": ph})
         if spec == "hapto":
